@@ -395,7 +395,7 @@ pub fn with_assertions(c: &Case, b: &Built) -> (Program, Vec<String>) {
                 _ => ("y", first.3),
             };
             let regid = Expr::Id { path: vec!["cpu".into(), rname.into()], modifier: None };
-            let kind = e.below(10);
+            let kind = e.below(12);
             let (expr, label): (Expr, &str) = match kind {
                 0 | 1 => (Expr::bin(regid, BinOp::Eq, Expr::num(rval as i64)), "true-at-first-visit"),
                 2 => (Expr::bin(regid, BinOp::Ne, Expr::num(rval as i64)), "false-at-first-visit"),
@@ -420,6 +420,9 @@ pub fn with_assertions(c: &Case, b: &Built) -> (Program, Vec<String>) {
                 6 => (Expr::bin(Expr::Id { path: vec!["cpu".into(), "sp".into()], modifier: None }, BinOp::LtEq, Expr::hex(0xfd)), "true-at-first-visit"),
                 7 => (Expr::bin(regid, BinOp::Eq, Expr::id("nodefsym")), "unevaluable"),
                 8 => (Expr::bin(Expr::bin(regid, BinOp::Add, Expr::id("kexp")), BinOp::Eq, Expr::num(rval as i64 + 7)), "true-at-first-visit"),
+                // the ends of the address space: the word at $ffff wraps around
+                10 => (Expr::bin(Expr::Call("ram16".into(), vec![Expr::hex(0xffff)]), BinOp::GtEq, Expr::num(0)), "true-at-first-visit"),
+                11 => (Expr::bin(Expr::Call("ram".into(), vec![Expr::hex(0xffff)]), BinOp::LtEq, Expr::num(255)), "true-at-first-visit"),
                 _ => {
                     if b.banked {
                         if e.chance(1, 2) {
